@@ -141,12 +141,19 @@ inductive Pick
   | escapes            -- python exception leaves `DoitMain.run` (raised before its `try`)
 deriving DecidableEq, Repr
 
-/-- an unknown name, by category and place:
+/-- an unknown name, by category and place — every one is reported as `ERROR: …` with exit code 3
+    (since `fix: an unknown reporter or loader name given in a config file or DOIT_CONFIG is reported as an error`):
     * backend  — `validate_choice` for every place (command line: parser; config: `get_backends`; DOIT_CONFIG: `execute`)
-    * reporter — the command line is checked by the parser (choices = the table); a config / DOIT_CONFIG value is
-                 not: `self.reporters[name]` raises KeyError inside `run`'s `try`
-    * loader   — `get_loader` runs before the `try`: `plugins[name]` KeyError leaves `run` -/
+    * reporter — command line: parser (choices = the table); config: `get_reporters` validates the configured default
+                 once the choices are known; DOIT_CONFIG: `_execute` validates the resolved name
+    * loader   — `get_loader` raises InvalidCommand for a name that is not in `[LOADER]`, `run` reports it -/
 def unknownName : Category → Where → Pick
+  | _, _ => .errorMsg
+
+/-- the behaviour before that fix: a reporter name from a config section / DOIT_CONFIG was never validated
+    (`self.reporters[name]`: KeyError inside `run`'s `try`), `get_loader` ran before the `try` and indexed the
+    PluginDict (KeyError leaves `run`) -/
+def unknownNamePinned : Category → Where → Pick
   | .backend, _ => .errorMsg
   | .reporter, .cmdline => .errorMsg
   | .reporter, _ => .traceback3
